@@ -310,6 +310,9 @@ def traj_scenario(c, k):
         elif ev[0] == "delbias":
             biases = [b for b in biases if b["id"] != ev[1]]
             L.append("script cv bias b%d delete" % ev[1])
+        elif ev[0] == "badconfig":
+            # rejected: a restraint on a variable that does not exist (the error is expected)
+            L += ["echo EXPECTERR"] + heredoc(["harmonic {", "  name bad", "  colvars nosuchvariable", "  centers 0.0", "  forceConstant 1.0", "}"])
         elif ev[0] == "freq":
             freq = ev[1]
             L += heredoc(["colvarsTrajFrequency %d" % freq])
@@ -371,6 +374,9 @@ def traj_model_and_expect(c, calcs):
             cur["events"].append(["G"] + enc_cfg(vars_, order_at(ci)))
         elif ev[0] == "delbias":
             biases = [b for b in biases if b["id"] != ev[1]]
+            cur["events"].append(["G"] + enc_cfg(vars_, order_at(ci)))
+        elif ev[0] == "badconfig":
+            # the rejected bias is created and deleted again: config_changed() is called, the objects are unchanged
             cur["events"].append(["G"] + enc_cfg(vars_, order_at(ci)))
         elif ev[0] == "freq":
             freq = ev[1]
@@ -624,6 +630,21 @@ def check_traj_case(run, c, k, impl_lines, scratch, model):
     calcs, misc = parse_dump(impl_lines)
     ncalc = sum(1 for e in c["events"] if e[0] == "step")
     replay = {"kind": "traj", "case": c}
+    # a configuration that is expected to be rejected: its error is not a failure of the scenario
+    misc2, skip = [], False
+    nrej = 0
+    for l in misc:
+        if l.startswith("echo EXPECTERR"):
+            skip = True
+            continue
+        if skip and l.startswith("CONFIG err="):
+            skip = False
+            if "err=ok" in l:
+                run.mismatch("trajrun", c, l, "the configuration with an unknown variable is rejected")
+            nrej += 1
+            continue
+        misc2.append(l)
+    misc = misc2
     if any(l.startswith("LOAD err=") and "err=ok" not in l for l in misc):
         run.dist("traj:skipped-load-error")
         return 0
@@ -956,6 +977,8 @@ def gen_traj_case(r, tier):
             else:
                 events.append(["step", newpos()])
                 continue
+        elif u < 0.33:
+            events.append(["badconfig"])
         elif u < 0.36:
             freq2 = r.choice([1, 2, 3, 4, 6, 7])
             events.append(["freq", freq2])
@@ -1709,9 +1732,9 @@ def label_scenario(c, k):
     L = ["echo CASE %d" % k, "natoms 4", "temperature 300", "dt 1.0", "prefix c%ds0" % k, "new"]
     conf = ["colvarsTrajFrequency 1"]
     for i, nm in enumerate(c["names"]):
-        conf += ["colvar {", "  name %s" % nm, "  outputVelocity on", "  outputAppliedForce on", "  distanceZ {", "    main { atomNumbers %d }" % (2 * i + 1),
+        conf += ["colvar {"] + ([] if c.get("unnamed") else ["  name %s" % nm]) + ["  outputVelocity on", "  outputAppliedForce on", "  distanceZ {", "    main { atomNumbers %d }" % (2 * i + 1),
                  "    ref { dummyAtom (0,0,0) }", "    axis (0,0,1)", "  }", "}"]
-    conf += ["harmonic {", "  name %s" % c["bname"], "  colvars %s" % c["names"][0], "  centers 0.5", "  forceConstant 1.0", "  outputEnergy on", "  outputCenters on", "}"]
+    conf += ["harmonic {"] + ([] if c.get("unnamed") else ["  name %s" % c["bname"]]) + ["  colvars %s" % c["names"][0], "  centers 0.5", "  forceConstant 1.0", "  outputEnergy on", "  outputCenters on", "}"]
     L += heredoc(conf) + ["show atomf 0 cv 0 bias 0 energy 0", "pos 1 0 0 1.0", "pos 3 0 0 2.0", "step", "pos 1 0 0 1.5", "step", "flush", "echo END %d" % k]
     return L
 
@@ -1763,7 +1786,10 @@ def check_label_case(run, c, k, impl_lines, scratch, model):
 def gen_label_case(r, tier):
     def nm(n):
         return "".join(r.choice("abcdefghijklmnopqrstuvwxyz") for _ in range(n))
-    kind = r.choice(["short", "short", "exact", "long", "samehead", "prefixclash"])
+    kind = r.choice(["short", "short", "exact", "long", "samehead", "prefixclash", "unnamed"])
+    if kind == "unnamed":
+        # objects without a name keyword get the default names colvar<n>, harmonic<n>
+        return {"kind": "label", "names": ["colvar1", "colvar2"], "bname": "harmonic1", "unnamed": True}
     if kind == "short":
         names = [nm(r.randint(1, 12)), nm(r.randint(1, 12))]
     elif kind == "exact":
